@@ -354,8 +354,15 @@ def main():
             failing, cerrors = [], []
         else:
             impl = json.load(open(os.path.join(outdir, "impl.json")))
-            # C
-            failing, cerrors = run_cases(outdir)
+            # C (under the Coq lock: another check rebuilding Generated.vo meanwhile would make
+            # the case files fail with "inconsistent assumptions")
+            with Lock("coq"):
+                failing, cerrors = run_cases(outdir)
+            if cerrors and any("nconsistent assumptions" in e for e in cerrors):
+                # a dependency was rebuilt between our proof stage and the evaluation: rebuild and retry once
+                stage_proof(pid)
+                with Lock("coq"):
+                    failing, cerrors = run_cases(outdir)
             if cerrors:
                 broken.append(("correspondence", "model evaluation failed: " + " | ".join(cerrors)[:3000]))
             if failing:
